@@ -340,6 +340,7 @@ class Check:
                 print('  input: %s' % json.dumps(ob.finding.inputs)[:400])
         for ob, rp in unconfirmed:
             print('UNCONFIRMED: property=%s site=%s candidate=%s (solver counterexample, not natively replayable)' % (self.prop, ob.label, rp))
+            print('  %s' % ob.detail[:400])
         if confirmed:
             return 1
         return 2 if unconfirmed else 0
